@@ -733,6 +733,7 @@ class PDFDocument:
         self.catalog: Dict[str, Any] = {}
         self.encryption: Optional[Tuple[Any, Any]] = None
         self.decipher: Optional[DecipherCallable] = None
+        self._encrypt_objid: Optional[int] = None
         self._parser = None
         self._cached_objs: Dict[int, Tuple[object, int]] = {}
         self._parsed_objs: Dict[int, Tuple[List[object], int]] = {}
@@ -765,6 +766,9 @@ class PDFDocument:
                     # https://github.com/pdfminer/pdfminer.six/issues/594
                     id_value = (b"", b"")
                 self.encryption = (id_value, dict_value(trailer["Encrypt"]))
+                if isinstance(trailer["Encrypt"], PDFObjRef):
+                    # the strings of the encryption dictionary are not encrypted
+                    self._encrypt_objid = trailer["Encrypt"].objid
                 self._initialize_password(password)
             if "Info" in trailer:
                 self.info.append(dict_value(trailer["Info"]))
@@ -886,7 +890,7 @@ class PDFDocument:
                         obj = self._getobj_objstm(stream, index, objid)
                     else:
                         obj = self._getobj_parse(index, objid)
-                        if self.decipher:
+                        if self.decipher and objid != self._encrypt_objid:
                             obj = decipher_all(self.decipher, objid, genno, obj)
 
                     if isinstance(obj, PDFStream):
